@@ -413,6 +413,20 @@ package html
 //@   oncall IndividualNode.IsLiving check of-the-owner: arg0 == owner
 //@   oncall IndividualNode.IsLiving do ownerLiving = result
 //@   oncall SimpleNode.Value check place-of-nobody-living: publisher.options.LivingVisibility != LivingVisibilityHide || (lastNode == node && (owner == nil || !ownerLiving))
+// C19 (rides on this contract, reported by the C17 check): the key of a place -
+// the name of its page - is a function of the PRETTY name and of nothing else:
+// PagePlace finds the page of a place by its pretty name, so two spellings that
+// share a pretty name must share a key (a key made from the raw PLAC value gives
+// 'Sydney, NSW' and 'Sydney, NSW,' two pages of one name).
+//@   ghost pretty string = ""
+//@   ghost lowered string = ""
+//@   ghost nPretty int = 0
+//@   ghost nLower int = 0
+//@   oncall prettyPlaceName do pretty = result; nPretty = nPretty + 1
+//@   oncall strings.ToLower check key-from-the-pretty-name: nPretty == nLower + 1 && (arg0 == pretty || (pretty == "" && arg0 == "(none)"))
+//@   oncall strings.ToLower do lowered = result; nLower = nLower + 1
+//@   loop 1 invariant one-key-per-pretty-name: nPretty == nLower
+//@   oncall regexp.Regexp.ReplaceAllString check key-from-the-lowered-pretty-name: arg0 == alnumOrDashRegexp && arg1 == lowered && nLower == nPretty
 
 // C19 (no two pages share a name, links use the names of the files): page
 // names of individuals are made unique AGAINST the place keys, so the places
